@@ -721,11 +721,17 @@ def run(ctx, args):
             h = load_hist(json.load(open(os.path.join(cdir, fn))))
             h["name"] = "corpus/" + fn
             hists.append(h)
+    replay_hist = None
     if getattr(args, "replay", None):
         obj = json.load(open(args.replay))
-        h = load_hist(obj["replay"]["history"] if "replay" in obj else obj)
-        h["name"] = "replay"
-        hists = [h]
+        robj = obj.get("replay", obj)
+        if "history" in robj or "ops" in robj:
+            replay_hist = load_hist(robj["history"] if "history" in robj else robj)
+        else:
+            ctx.log("replay file has no operation history (an e2e replay carries its main.go; rerun with C06_E2E=1); running the normal check")
+    if replay_hist is not None:
+        replay_hist["name"] = "replay"
+        hists = [h for h in hists if h["name"].startswith("corpus/clear-then-refill")] + [replay_hist]
     else:
         per_kind = 4 if quick else 60
         nops = 5000 if quick else 20000
